@@ -185,6 +185,14 @@ Definition farm_calc (e : farm_env) (coins : Z) : outcome pays :=
                         (filter (fun f => negb (snd f =? 0)) ms))
   end.
 
+(* (account, eligible farmed value) of an environment: what "pro rata by farmed value" refers to *)
+Definition eligible (e : farm_env) : list (Z * Z) :=
+  match e with
+  | FarmErr => []
+  | FarmPlain fs => fs
+  | FarmMaster fs child => combine (map fst fs) (min_supplies (map snd fs) child)
+  end.
+
 (* known-finding class C19-F1: the multiplier coins/total is rounded to 18 decimals before it is
    multiplied by the farmer's value, so when the farmed value is large against the allocation the
    multiplier has few significant digits: total (scaled) > coins * 4*10^23, i.e. total farmed
